@@ -22,7 +22,7 @@ import (
 
 type Diag struct {
 	Pos      token.Pos
-	File     string
+	File     string // unadjusted (physical) file and line: //line directives ignored
 	Line     int
 	Col      int
 	Code     string
@@ -122,6 +122,8 @@ func SetConfig(scanTests bool, excludePaths, excludeChecks *string) {
 	fs := &analyzer.ConfigReader.Flags
 	if scanTests {
 		fs.Set("scan-tests", "true")
+	} else {
+		fs.Set("scan-tests", "false")
 	}
 	if excludePaths != nil {
 		fs.Set("exclude-paths", *excludePaths)
@@ -171,7 +173,7 @@ func Analyze(roots []*packages.Package, sequential, sanity bool) (map[string]*Pk
 			}
 		}
 		for _, d := range act.Diagnostics {
-			p := act.Package.Fset.Position(d.Pos)
+			p := act.Package.Fset.PositionFor(d.Pos, false)
 			code := ""
 			if i := strings.Index(d.Message, "["); i >= 0 {
 				if j := strings.Index(d.Message[i:], "]"); j > 0 {
